@@ -192,6 +192,32 @@ func vh_C09_ClosedPoolKeepingItsQueue() {
 	vfReach("end")
 }
 
+// the panic handler can be replaced while workers already exist: a later panic is reported, once, to the handler that
+// is installed when the job panics (not to the one the worker happened to be spawned under), and later jobs still run
+func vh_C09_PanicHandlerReplaced() {
+	vfSetMapOrder(2)
+	l := &c09Log{started: map[int]int{}}
+	p := c09Pool(l, vfRange("max", 1, 2), vfRange("standby", 0, 1), 2, 1)
+	vfAssert("first-job-accepted", p.Schedule(l.job(0, false, false)) == nil)
+	vfQuiesce() // workers exist now
+	var second []interface{}
+	p.SetPanicHandler(func(v interface{}) {
+		l.mu.Lock()
+		second = append(second, v)
+		l.mu.Unlock()
+	})
+	vfAssert("panicking-job-accepted", p.Schedule(l.job(1, true, false)) == nil)
+	vfAssert("later-job-accepted", p.Schedule(l.job(2, false, false)) == nil)
+	vfQuiesce()
+	vfAssert("accepted-job-ran-exactly-once", l.started[0] == 1 && l.started[1] == 1 && l.started[2] == 1)
+	vfAssert("panic-reported-once-to-the-current-handler", len(second) == 1 && len(l.handled) == 0)
+	if len(second) == 1 {
+		vfAssert("panic-value", second[0] == interface{}(1))
+	}
+	vfAssert("pool-still-open", !p.IsClosed())
+	vfReach("end")
+}
+
 func vh_C09_Invoke() {
 	vfSetMapOrder(2)
 	l := &c09Log{started: map[int]int{}}
